@@ -81,6 +81,13 @@ def run(ctx):
         sessions += [("fresh", hs, dict(base)) for hs in (1, 2)]
         sessions.append(("fresh", 5, dict(base, workers=2)))
         groups.append({"base": base, "sessions": sessions})
+    # ensemble mode: every fold model scores every PSM, in parallel; one model answers late
+    for g in range(1 if ctx.quick else 2):
+        base = {"ensemble": True, "data_seed": int(ctx.seed * 100 + 70 + g), "n": 900, "folds": 3 + g, "seed": int(11 + g), "workers": 1,
+                "proteins": False, "peps": "qvality", "cap": None}
+        sessions = [("inproc", 0, dict(base)), ("fresh", 1, dict(base)), ("fresh", 2, dict(base, workers=2)), ("fresh", 3, dict(base, workers=4)),
+                    ("fresh", 4, dict(base, workers=3))]
+        groups.append({"base": base, "sessions": sessions})
     ctx.phase("driving")
     traces = []
     for gi, G in enumerate(groups):
